@@ -19,8 +19,16 @@ struct Q {
 inline __float128 qabs(__float128 a){return fabsq(a);}
 inline Q operator+(Q a, Q b) { return Q(a.v + b.v, a.m + b.m); }
 inline Q operator-(Q a, Q b) { return Q(a.v - b.v, a.m + b.m); }
-inline Q operator*(Q a, Q b) { return Q(a.v * b.v, qabs(a.v) * b.m + qabs(b.v) * a.m - qabs(a.v * b.v)); }  // first-order (non-compounding)
-inline Q operator/(Q a, Q b) { return Q(a.v / b.v, a.m / qabs(b.v) + qabs(a.v) * (b.m - qabs(b.v)) / (b.v * b.v) ); }
+// Two magnitude rules for products. First-order (default): m(ab) = |a| m_b + |b| m_a - |ab| is the forward error of
+// evaluating the product of two already-evaluated quantities -- right for the manufactured FIELDS, which the library
+// evaluates in the same unexpanded way. Compounding: m(ab) = m_a m_b is the sum of |terms| of the fully expanded
+// product -- right for the OPERATOR, whose products of fields the library's Maple-generated sources expand (a
+// first-order rule under-estimates e.g. rho u u when u = u_r (cos x - 1)(...) suffers cancellation).
+inline int &q_mode() { static int m = 0; return m; }
+struct Compound { int old; Compound() : old(q_mode()) { q_mode() = 1; } ~Compound() { q_mode() = old; } };
+struct FirstOrder { int old; FirstOrder() : old(q_mode()) { q_mode() = 0; } ~FirstOrder() { q_mode() = old; } };
+inline Q operator*(Q a, Q b) { return Q(a.v * b.v, q_mode() ? a.m * b.m : qabs(a.v) * b.m + qabs(b.v) * a.m - qabs(a.v * b.v)); }
+inline Q operator/(Q a, Q b) { return Q(a.v / b.v, q_mode() ? a.m * b.m / (b.v * b.v) : a.m / qabs(b.v) + qabs(a.v) * (b.m - qabs(b.v)) / (b.v * b.v)); }
 inline Q operator-(Q a) { return Q(-a.v, a.m); }
 inline bool operator<(Q a, Q b) { return a.v < b.v; }
 inline bool operator>(Q a, Q b) { return a.v > b.v; }
